@@ -709,6 +709,10 @@ class SX:
         """evaluate a function; returns list[Outcome]"""
         if depth > MAX_DEPTH:
             raise CannotDecide(f'inlining depth exceeded at {fn.name}')
+        for d in getattr(fn, 'decorator_list', ()):
+            if 'cache' in ast.unparse(d):
+                # a memoised function answers from an earlier call: evaluating its body says nothing about later calls (fail closed)
+                raise CannotDecide(f'{fn.name} is memoised (@{ast.unparse(d)[:40]}): its result may be that of an earlier state')
         if self.fn_transform is not None:
             key = id(fn)
             if key not in self._fn_cache:
